@@ -6,6 +6,7 @@
 #include "verif.h"
 #include <errno.h>
 #define C12_NM_HI (LEN + 1)
+#define C12_SPEC_REALLOC_ITEMS
 #include "libc_stubs.h"
 #include "utils/bt_encode.c"
 
@@ -26,6 +27,13 @@ void harness(void) {
 	uint8_t *src = v_buf(IN.src, LEN + 1);
 #else
 	uint8_t *src = v_buf(IN.src, LEN);
+#endif
+#ifdef MAXCONT	/* shape: at most MAXCONT bytes of the input are 'l' or 'd' => nesting depth <= MAXCONT + 1 (recursion bound) */
+	{
+		size_t nc = 0;
+		for (size_t i = 0; i < LEN; i++) nc += (src[i] == 'l' || src[i] == 'd');
+		V_ASSUME(nc <= MAXCONT);
+	}
 #endif
 	bt_en_node_p node = NULL, found = NULL;
 	size_t off = 777;
